@@ -20,6 +20,7 @@ import (
 	"bufio"
 	"encoding/json"
 	"math/rand"
+	"net"
 	"os"
 	"strconv"
 	"sync"
@@ -62,6 +63,20 @@ func vSessStart(id, mode string, ibgp bool, hold uint16, gated bool, seed int64,
 }
 
 func vSessStartHold(id, mode string, ibgp bool, hold uint16, gated bool, seed int64, wrongFirst int, holdFirst bool) *vSessRun {
+	return vSessStartOpt(id, mode, ibgp, hold, gated, seed, wrongFirst, vSessOpt{holdFirst: holdFirst, src: seed%2 == 0})
+}
+
+// vSessOpt: further dimensions of a run.
+type vSessOpt struct {
+	holdFirst bool
+	src       bool          // the session is created WITH SessionParameters.SourceAddress (127.0.0.1 as net.ParseIP gives it)
+	slowSend  time.Duration // free-running, with the hook: the sender is paced (up to this long) after every UPDATE it wrote
+	jitter    bool          // with the hook: s.conn is wrapped by a connection whose Write calls are delayed individually
+	plainPeer bool          // the peer does not vary its OPEN (capability 65, hold time as given, no pipelining)
+}
+
+func vSessStartOpt(id, mode string, ibgp bool, hold uint16, gated bool, seed int64, wrongFirst int, opt vSessOpt) *vSessRun {
+	holdFirst := opt.holdFirst
 	r := &vSessRun{id: id, hooks: vSessHooksPresent, lastReq: vSessEmptyTable(), status: "ok",
 		settle: time.Duration(vSessEnvInt("VERIF_SETTLE_MS", 250)) * time.Millisecond,
 		quiet:  time.Duration(vSessEnvInt("VERIF_QUIET_MS", 120)) * time.Millisecond}
@@ -72,7 +87,7 @@ func vSessStartHold(id, mode string, ibgp bool, hold uint16, gated bool, seed in
 		peerASN = 64600
 	}
 	r.p = vSessNewPeer(r.l, r.u, peerASN, hold)
-	r.p.vary, r.p.myASN = true, myASN
+	r.p.vary, r.p.myASN = !opt.plainPeer, myASN
 	r.p.rng = rand.New(rand.NewSource(seed*7919 + 17))
 	if gated {
 		r.p.holds = []uint16{0, 30} // no keepalive traffic within a gated run
@@ -86,12 +101,19 @@ func vSessStartHold(id, mode string, ibgp bool, hold uint16, gated bool, seed in
 	}
 	r.c = vSessNewCtl(r.l, r.u, gated && r.hooks)
 	r.c.callerG[vSessGoid()] = true
-	r.l.add("meta", map[string]interface{}{"mode": mode, "ibgp": ibgp, "hooks": r.hooks, "seed": int(seed), "hold": int(hold)})
+	r.c.slowSend, r.c.jitter = opt.slowSend, opt.jitter
+	r.c.pace = rand.New(rand.NewSource(seed*31 + 5))
+	r.l.add("meta", map[string]interface{}{"mode": mode, "ibgp": ibgp, "hooks": r.hooks, "seed": int(seed), "hold": int(hold),
+		"src": opt.src, "slow": int(opt.slowSend / time.Microsecond), "jitter": opt.jitter})
+	var src net.IP
+	if opt.src {
+		src = net.ParseIP("127.0.0.1")
+	}
 	vSessCtls.Store(uint16(r.p.port), r.c)
 	ht := 90 * time.Second
 	sess, err := NewSessionManager(log.NewNopLogger()).NewSession(log.NewNopLogger(), bgp.SessionParameters{
 		PeerAddress: "127.0.0.1", PeerPort: uint16(r.p.port), MyASN: myASN, PeerASN: peerASN,
-		HoldTime: &ht, CurrentNode: "verif", SessionName: id})
+		HoldTime: &ht, CurrentNode: "verif", SessionName: id, SourceAddress: src})
 	kit.Must(err)
 	r.s = sess.(*session)
 	r.l.mu.Lock()
@@ -238,11 +260,12 @@ func (r *vSessRun) holding() bool {
 
 // trySettle waits until the session is idle on a live connection and logs a settled
 // observation in the same critical section in which that was seen.
-//   with the hook:    the sender is parked in cond.Wait with nothing pending (read under s.mu by
-//                     the hook), and the peer has read every UPDATE the hook saw being written
-//                     on this connection - an exact, clock-free criterion;
-//   without the hook: s.conn != nil, s.new == nil (read under s.mu) and nothing received for
-//                     the settle period.
+//
+//	with the hook:    the sender is parked in cond.Wait with nothing pending (read under s.mu by
+//	                  the hook), and the peer has read every UPDATE the hook saw being written
+//	                  on this connection - an exact, clock-free criterion;
+//	without the hook: s.conn != nil, s.new == nil (read under s.mu) and nothing received for
+//	                  the settle period.
 func (r *vSessRun) trySettle(limit time.Duration) bool {
 	c, l := r.c, r.l
 	req := vSessPairs(r.lastReq)
@@ -361,6 +384,30 @@ func (r *vSessRun) slowHandshake(rng *rand.Rand, armed bool) {
 	r.p.setWrong(0)
 }
 
+// vSessJitterRun: a live session with keepalives every second (hold time 3 s) over a connection
+// whose Write calls are delayed individually (short writes longer), while Sets keep the sender
+// busy: whatever the session writes concurrently must still reach the peer as whole messages.
+func vSessJitterRun(id string, seed int64) *vSessLog {
+	rng := rand.New(rand.NewSource(seed))
+	r := vSessStartOpt(id, "stress", rng.Intn(2) == 0, 3, false, seed, 0, vSessOpt{jitter: true, plainPeer: true, src: rng.Intn(2) == 0})
+	defer r.finish()
+	end := time.Now().Add(time.Duration(vSessEnvInt("VERIF_JITTER_MS", 3300)) * time.Millisecond)
+	for time.Now().Before(end) && r.status == "ok" {
+		r.doSet(vSessRandTable(rng, r.lastReq))
+		time.Sleep(time.Duration(1500+rng.Intn(3000)) * time.Microsecond)
+	}
+	if r.status != "ok" {
+		return r.l
+	}
+	if !r.trySettle(10 * time.Second) {
+		r.status = "timeout:settle"
+		return r.l
+	}
+	r.doClose()
+	r.afterClose()
+	return r.l
+}
+
 func vSessStressRun(id string, seed int64) *vSessLog {
 	rng := rand.New(rand.NewSource(seed))
 	ibgp := rng.Intn(2) == 0
@@ -374,7 +421,13 @@ func vSessStressRun(id string, seed int64) *vSessLog {
 		wrongFirst, wrongUsed = 1+rng.Intn(2), true
 	}
 	holdFirst := rng.Intn(100) < 8
-	r := vSessStartHold(id, "stress", ibgp, hold, false, seed, wrongFirst, holdFirst)
+	opt := vSessOpt{holdFirst: holdFirst, src: rng.Intn(2) == 0}
+	if rng.Intn(100) < 35 {
+		// a slow socket: the sender is held up after every UPDATE, so that a reset by the peer in
+		// the middle of a burst is noticed by the next write of the same burst
+		opt.slowSend = time.Duration(200+rng.Intn(1300)) * time.Microsecond
+	}
+	r := vSessStartOpt(id, "stress", ibgp, hold, false, seed, wrongFirst, opt)
 	defer r.finish()
 	if holdFirst {
 		r.slowHandshake(rng, true)
@@ -601,7 +654,12 @@ func TestVerifSessStress(t *testing.T) {
 				if only != "" && id != only {
 					continue
 				}
-				l := vSessStressRun(id, seed*1000003+int64(n))
+				var l *vSessLog
+				if n%50 == 7 && vSessHooksPresent {
+					l = vSessJitterRun(id, seed*1000003+int64(n))
+				} else {
+					l = vSessStressRun(id, seed*1000003+int64(n))
+				}
 				b := &kit.Block{}
 				l.flush(b)
 				out.WriteBlock(b)
